@@ -329,7 +329,10 @@ def apply_transforms(transaction, transforms):
             new_value = evaluator.evaluate(parsed)
 
             # Update the field, preserving original in _raw_{field}
-            field_name = field_path[6:]  # Remove "field." prefix
+            # Remove "field." prefix. Names are case-insensitive in the language and a field is
+            # read under its lower-cased name, so that is where the new value has to go
+            # (field.Description is the description, field.MEMO is field.memo)
+            field_name = field_path[6:].lower()
             raw_key = f'_raw_{field_name}'
 
             if field_name == 'description':
